@@ -56,6 +56,10 @@ def main() -> int:
                 send({"t": "result", "res": res})
             elif cmd["cmd"] == "explore":
                 explore(cmd, cell, send)
+            elif cmd["cmd"] == "gen":
+                send({"t": "case", "case": runner.generate(cmd["pid"], cmd["seed"], cmd["tier"], cmd["index"], cell)})
+            elif cmd["cmd"] == "stubcheck":
+                stubcheck(cmd, cell, send)
             else:
                 send({"t": "fatal", "error": f"unknown command {cmd['cmd']}"})
                 return 2
@@ -77,11 +81,20 @@ def explore(cmd, cell, send):
            "schedules": set(), "samples": [], "digests": {}, "violating_runs": 0, "stopped_early": False}
     want_digests = cmd.get("want_digests", False)
     nsamples = cmd.get("samples", 1)
-    for idx in cmd["runs"]:
+    max_msgs = cmd.get("max_violation_msgs", 20)
+    max_violating = cmd.get("max_violating_runs", 300)
+    sent = 0
+    for n_done, idx in enumerate(cmd["runs"]):
         if time.monotonic() > deadline:
             agg["stopped_early"] = True
             break
-        faulthandler.dump_traceback_later(cmd.get("run_timeout", 300), exit=True)
+        if agg["violating_runs"] >= max_violating:
+            agg["stopped_early"] = True
+            agg["stop_reason"] = "too many violating runs"
+            break
+        if n_done % 16 == 0:
+            send({"t": "progress", "done": n_done})
+        faulthandler.dump_traceback_later(cmd.get("run_timeout", 45), exit=True)
         case = runner.generate(pid, seed, tier, idx, cell)
         res = runner.execute(pid, case, cell)
         faulthandler.cancel_dump_traceback_later()
@@ -102,11 +115,43 @@ def explore(cmd, cell, send):
                                    "faults": res["faults"], "digest": res["digest"]})
         if res["violations"]:
             agg["violating_runs"] += 1
-            send({"t": "violation", "run_index": idx, "case": case, "violations": res["violations"],
-                  "digest": res["digest"]})
+            agg["violation_count"] = agg.get("violation_count", 0) + len(res["violations"])
+            if sent < max_msgs:
+                sent += 1
+                send({"t": "violation", "run_index": idx, "case": case, "violations": res["violations"][:6],
+                      "digest": res["digest"]})
     for k in ("nontrivial", "states", "schedules"):
         agg[k] = sorted(agg[k])
     send({"t": "done", "agg": agg})
+
+
+def stubcheck(cmd, cell, send):
+    """Cross-check the stand-in's branch and bound against real CBC on the models the library built."""
+    import cplex
+    import pulp
+    from . import runner
+    models = mism = 0
+    worst = 0.0
+    for idx in range(cmd["n"]):
+        cplex.reset_stats()
+        case = runner.generate("C05", 424242, "quick", idx, cell)
+        runner.execute("C05", case, cell)
+        for m in cplex.STATS["models"]:
+            if m["opt"] is None:
+                continue
+            prob = pulp.LpProblem("x", pulp.LpMinimize if m["sense"] == 1 else pulp.LpMaximize)
+            vs = [pulp.LpVariable("v%d" % i, 0, 1, cat="Binary") for i in range(len(m["names"]))]
+            prob += pulp.lpSum(c * v for c, v in zip(m["obj"], vs))
+            for idxs, coefs, sense, rhs in m["rows"]:
+                e = pulp.lpSum(c * vs[i] for i, c in zip(idxs, coefs))
+                prob += (e == rhs) if sense == "E" else (e <= rhs) if sense == "L" else (e >= rhs)
+            prob.solve(pulp.PULP_CBC_CMD(msg=False))
+            val = pulp.value(prob.objective) or 0.0
+            models += 1
+            worst = max(worst, abs(val - m["opt"]))
+            if abs(val - m["opt"]) > 1e-6:
+                mism += 1
+    send({"t": "stubcheck", "models": models, "mismatches": mism, "worst_abs_diff": worst})
 
 
 if __name__ == "__main__":
